@@ -36,7 +36,7 @@ func main() {
 		only := fs.String("only", "", "harness name filter")
 		workers := fs.Int("workers", 0, "worker count")
 		budget := fs.Duration("budget", 0, "wall budget for exploration")
-		fuel := fs.Int64("fuel", 3_000_000, "SSA instructions per path")
+		fuel := fs.Int64("fuel", 1_000_000, "SSA instructions per path")
 		solver := fs.String("solver", "z3", "solver binary")
 		noReplay := fs.Bool("no-replay", false, "skip native replay")
 		verbose := fs.Bool("v", false, "verbose")
